@@ -12,6 +12,13 @@ from .execute import ExecMixin
 
 class Verifier(ExecMixin, Engine):
 
+    def __init__(self, *a, **kw):
+        Engine.__init__(self, *a, **kw)
+        # ghost fields declared in the class table are addressable as locations: ghost(obj, 'name')
+        for info in self.classes.values():
+            for gname, srt in info.get('ghosts', {}).items():
+                self.ghost_sorts[gname] = srt
+
     def entry_state(self, c, fi):
         st = State()
         ctx = Ctx(self, c, fi)
@@ -76,12 +83,20 @@ class Verifier(ExecMixin, Engine):
                 except Unsupported as ex:
                     raise Unsupported('return value of %s: %s' % (c.target, ex))
             n_normal += 1
+            if n_normal <= 2:
+                # vacuity guard: this exit is reachable (path condition satisfiable)
+                self.emit(ctx, s1, 'cover', 'exit%d' % n_normal, B(True), expect_sat=True, note='normal exit reachable')
             pctx = self.spec_ctx(ctx, old_state=pre, result=res, bound=ctx.bound)
             for i, ens in enumerate(c.ensures):
                 g = self.spec_bool(ens, s1, pctx)
                 self.emit(ctx, s1, 'post', str(i), g, note=ens)
             for cname, when, enss in c.cases:
                 w = self.spec_bool(when, pre.fork(), pctx)
+                # a case whose guard contradicts this path holds trivially: no obligation is generated for it
+                probe = s1.fork()
+                probe.assume(w)
+                if not self.feasible(probe):
+                    continue
                 for i, ens in enumerate(enss):
                     g = self.spec_bool(ens, s1, pctx)
                     self.emit(ctx, s1, 'post', '%s.%d' % (cname, i), z3.Implies(w, g), note='%s: %s' % (cname, ens))
